@@ -149,6 +149,20 @@ def handle (line : String) : String :=
       else if ties then answer impl   -- with equal scores Go's unstable sort may order differently: spec only
       else answer model
     | _, _, _ => badCase "fields"
+  | ["collect", docLimit, specOnly, chunks] =>
+    -- collectSender: chunks in arrival order, separated by `|`
+    match docLimit.toNat?, bool? specOnly, (chunks.splitOn "|").mapM parseEnts, natList? impl with
+    | some docLimit, some specOnly, some chs, some ids =>
+      let m := collect docLimit chs
+      let model := showNatList (m.map (·.id))
+      let all := chs.flatten
+      let out := ids.filterMap fun i => all.find? (·.id == i)
+      if out.length != ids.length || ids.eraseDups.length != ids.length then specFail model "collect-returns-unknown-or-duplicate-file"
+      else if docLimit > 0 && ids.length > docLimit then specFail model "collect-exceeds-display-limit"
+      else if !(filesSortedExceptPromotion out) then specFail model "aggregated-files-not-sorted-except-promotion"
+      else if specOnly then answer impl
+      else answer model
+    | _, _, _, _ => badCase "fields"
   | ["boost", off, num, den, ents] =>
     match off.toNat?, num.toInt?, den.toInt?, parseEnts ents with
     | some off, some num, some den, some es =>
